@@ -701,43 +701,50 @@ func assignValues(command string, params map[string]string) string {
 	return updatedCommand
 }
 
-// convertMap converts a map[any]any to a map[string]any.
+// convertMap converts every map[any]any nested in the map (also inside
+// lists) to a map[string]any, so that the value can be serialised as JSON.
 func convertMap(m map[string]any) error {
-	if m == nil {
-		return nil
-	}
-
-	queue := []map[string]any{m}
-
-	for len(queue) > 0 {
-		curr := queue[0]
-
-		for k, v := range curr {
-			mm, ok := v.(map[any]any)
-			if !ok {
-				// TODO: do we need to return an error here?
-				continue
-			}
-
-			ret := make(map[string]any)
-			for kk, vv := range mm {
-				key, err := parseKey(kk)
-				if err != nil {
-					return fmt.Errorf(
-						"%w: %s", errExecutorConfigMustBeString, err,
-					)
-				}
-				ret[key] = vv
-			}
-
-			delete(curr, k)
-			curr[k] = ret
-			queue = append(queue, ret)
+	for k, v := range m {
+		cv, err := convertValue(v)
+		if err != nil {
+			return err
 		}
-		queue = queue[1:]
+		m[k] = cv
 	}
-
 	return nil
+}
+
+func convertValue(v any) (any, error) {
+	switch t := v.(type) {
+	case map[any]any:
+		ret := make(map[string]any, len(t))
+		for kk, vv := range t {
+			key, err := parseKey(kk)
+			if err != nil {
+				return nil, fmt.Errorf(
+					"%w: %s", errExecutorConfigMustBeString, err,
+				)
+			}
+			cv, err := convertValue(vv)
+			if err != nil {
+				return nil, err
+			}
+			ret[key] = cv
+		}
+		return ret, nil
+	case []any:
+		ret := make([]any, len(t))
+		for i, vv := range t {
+			cv, err := convertValue(vv)
+			if err != nil {
+				return nil, err
+			}
+			ret[i] = cv
+		}
+		return ret, nil
+	default:
+		return v, nil
+	}
 }
 
 // buildConfigEnv builds the environment variables from the map.
